@@ -275,6 +275,15 @@ Section Checker.
     | _ => false
     end.
 
+  (* member type seen through a receiver: with a projected receiver only member types that mention
+     no projection after substitution are determined *)
+  Definition member_ty (usable : bool) (t : option ty) : tres :=
+    if usable then read_ty t
+    else match t with
+         | Some u => if is_wild u || has_wildcards u then TUnk else read_ty t
+         | None => TUnk
+         end.
+
   Definition is_callarg (n : node) : bool := Nat.eqb (kind_of n) 26.
 
   (* bounds of explicit type arguments *)
@@ -437,7 +446,7 @@ Section Checker.
                 match tr with
                 | TOk rt =>
                     match find_field 12 rt (name_of_node e) with
-                    | Some (ft, _) => (if usable_receiver rt then read_ty ft else TUnk, er)
+                    | Some (ft, _) => (member_ty (usable_receiver rt) ft, er)
                     | None => (TUnk, er ++ (match class_of_ty rt with Some _ => [mkerr (path) 11] | None => [] end))
                     end
                 | _ => (TUnk, er)
@@ -532,7 +541,7 @@ Section Checker.
                                   existsb (fun tv => negb (existsb (fun p => match fp_ty p with Some t => occurs tv t | None => false end)
                                                                    (fn_params fn))) (fn_tparams fn)
                                then [mkerr path 26] else [] in
-                  (if unknown then TUnk else read_ty (option_map (subst false m') (fn_ret fn)),
+                  (if generic && negb explicit then TUnk else member_ty usable (option_map (subst false m') (fn_ret fn)),
                    er ++ ers ++ rec_err ++ undet ++
                    (if explicit && negb (targs_ok (fn_tparams fn) targs m) then [mkerr (path) 8] else []))
               end
